@@ -380,5 +380,73 @@ pub fn run(ctx: &Ctx) -> Report {
         }
     });
     out.merge(rep12);
+    // ---- sleep after a call that was cut short by an SPI error ---------------------------------
+    // ("the sleep call ends with the controller in its deep-sleep state" also when the previous call
+    // returned an error - putting the panel to sleep is what a caller does then)
+    struct FCase {
+        spec: &'static Spec,
+        asleep_first: bool,
+        sym: usize,
+        k: u64,
+    }
+    let mut fcases: Vec<FCase> = Vec::new();
+    for spec in panels_for(ctx) {
+        let syms = syms(spec);
+        for asleep_first in [false, true] {
+            for si in 0..syms.len() {
+                if asleep_first && !syms[si].iter().any(|o| o.k == K::WakeUp) {
+                    continue; // only wake-up is legal on a sleeping panel
+                }
+                let mut dry = Rig::simple(spec);
+                if asleep_first && !dry.apply(&Op::new(K::Sleep)).is_ok() {
+                    continue;
+                }
+                let n = symbol_transfers(&mut dry, &syms[si]);
+                if n == 0 {
+                    continue;
+                }
+                for k in fault_points(n, if ctx.tier_thorough { 64 } else { 16 }) {
+                    fcases.push(FCase { spec, asleep_first, sym: si, k });
+                }
+            }
+        }
+    }
+    let frep = par_run(&fcases, ctx.threads, |_, c, rep| {
+        let spec = c.spec;
+        let syms = syms(spec);
+        rep.eval(spec.name);
+        let mut rig = Rig::simple(spec);
+        if c.asleep_first && !rig.apply(&Op::new(K::Sleep)).is_ok() {
+            return;
+        }
+        let Some(failed) = apply_symbol_with_fault(&mut rig, &syms[c.sym], c.k, 0xC08) else {
+            rep.count("fault_histories_not_judged", 1);
+            return;
+        };
+        let c0 = rig.board.borrow().chip().cmds.len();
+        let o = rig.apply(&Op::new(K::Sleep));
+        rep.nontrivial(hash_str(&format!("{}|faultsleep|{}|{}|{}", spec.name, c.asleep_first, c.sym, c.k)));
+        rep.count("sleep_after_aborted_call_checked", 1);
+        let mut ops: Vec<Op> = if c.asleep_first { vec![Op::new(K::Sleep)] } else { vec![] };
+        ops.extend(syms[c.sym].iter().cloned());
+        ops.push(Op::new(K::Sleep));
+        let case = case_json(spec, &variant, &ops).set("fault_at_transfer", c.k).set("failed_call", failed.as_str());
+        if !o.is_ok() {
+            rep.fail(Failure { panel: spec.name.into(), entry: "sleep".into(), class: "sleep-signature".into(), tags: vec!["sleep-fails".into(), format!("aborted:{}", sym_kinds(&syms, &[c.sym]))], detail: format!("sleep() after {} was cut short at its transfer {} returned {}", failed, c.k, o.short()), case });
+            return;
+        }
+        for (class, mut tags, detail) in check_sleep(spec, &rig, c0) {
+            // judged only where sleep on a driver that never failed passes (known sleep findings stay with their own case)
+            let mut plain = Rig::simple(spec);
+            let p0 = plain.board.borrow().chip().cmds.len();
+            let _ = plain.apply(&Op::new(K::Sleep));
+            if check_sleep(spec, &plain, p0).iter().any(|(c2, _, _)| *c2 == class) {
+                continue;
+            }
+            tags.push(format!("aborted:{}", sym_kinds(&syms, &[c.sym])));
+            rep.fail(Failure { panel: spec.name.into(), entry: "sleep".into(), class, tags, detail: format!("{} | after {} was cut short at its transfer {}", detail, failed, c.k), case: case.clone() });
+        }
+    });
+    out.merge(frep);
     out
 }
